@@ -301,11 +301,23 @@ def l12(repo, res, canon):
             return False
         MUT = ('update', 'add', 'append', 'extend', 'appendleft', 'insert', 'union', 'setdefault')
 
+        def key_of(e):
+            """a local or an attribute chain on a local (`delta.added`): the name of a container"""
+            parts = []
+            while isinstance(e, ast.Attribute):
+                parts.append(e.attr)
+                e = e.value
+            if isinstance(e, ast.Name):
+                return '.'.join([e.id] + parts[::-1])
+            return None
+
         def taint_of(e, taint):
             out = set()
             for x in ast.walk(e):
-                if isinstance(x, ast.Name) and x.id in taint:
-                    out |= taint[x.id]
+                if isinstance(x, (ast.Name, ast.Attribute)):
+                    k_ = key_of(x)
+                    if k_ in taint:
+                        out |= taint[k_]
             for x in ast.walk(e):
                 if isinstance(x, ast.Call) and call_name(x) == 'successors' and x.args and any(
                         isinstance(y, ast.Name) and 'task' in taint.get(y.id, ()) for y in ast.walk(x.args[0])):
@@ -324,19 +336,19 @@ def l12(repo, res, canon):
                         t = taint_of(st.value, taint)
                         for tg in st.targets:
                             pairs += [(y.id, t) for y in ast.walk(tg) if isinstance(y, ast.Name)]
-                    elif isinstance(st, ast.AugAssign) and isinstance(st.target, ast.Name):
-                        pairs.append((st.target.id, taint_of(st.value, taint)))
+                    elif isinstance(st, ast.AugAssign) and key_of(st.target):
+                        pairs.append((key_of(st.target), taint_of(st.value, taint)))
                     elif isinstance(st, (ast.For, ast.comprehension)):
                         if st is cand:
                             continue          # the candidates themselves: not what THIS proposal hands on
                         t = taint_of(st.iter, taint)
                         pairs += [(y.id, t) for y in ast.walk(st.target) if isinstance(y, ast.Name)]
                     elif isinstance(st, ast.Call) and isinstance(st.func, ast.Attribute) and st.func.attr in MUT \
-                            and isinstance(st.func.value, ast.Name):
+                            and key_of(st.func.value):
                         t = set()
                         for a_ in list(st.args) + [k.value for k in st.keywords]:
                             t |= taint_of(a_, taint)
-                        pairs.append((st.func.value.id, t))
+                        pairs.append((key_of(st.func.value), t))
                     for nm, t in pairs:
                         if t - taint.get(nm, set()):
                             taint[nm] = taint.get(nm, set()) | t
@@ -357,27 +369,34 @@ def l12(repo, res, canon):
             taint = {}
             if kv:
                 seed = {kv: {'task'}}
+                taint = seed          # grows in statement order: later statements of the iteration see earlier ones
                 for e in seg:
                     if e.kind != 'stmt':
                         continue
                     for x in ast.walk(e.node):
-                        if isinstance(x, ast.Call) and isinstance(x.func, ast.Attribute) and x.func.attr in MUT and isinstance(
-                                x.func.value, ast.Name) and x.func.value.id != m:
+                        if isinstance(x, ast.Call) and isinstance(x.func, ast.Attribute) and x.func.attr in MUT and key_of(
+                                x.func.value) and key_of(x.func.value) != m:
                             t = set()
                             for a_ in list(x.args) + [k.value for k in x.keywords]:
                                 t |= taint_of(a_, seed)
                             if t:
-                                taint[x.func.value.id] = taint.get(x.func.value.id, set()) | t
-                        elif isinstance(x, ast.AugAssign) and isinstance(x.target, ast.Name):
+                                taint[key_of(x.func.value)] = taint.get(key_of(x.func.value), set()) | t
+                        elif isinstance(x, ast.AugAssign) and key_of(x.target):
                             t = taint_of(x.value, seed)
                             if t:
-                                taint[x.target.id] = taint.get(x.target.id, set()) | t
+                                taint[key_of(x.target)] = taint.get(key_of(x.target), set()) | t
                         elif isinstance(x, ast.Assign) and len(x.targets) == 1 and isinstance(x.targets[0], ast.Name) \
                                 and x.targets[0].id != kv:
                             t = taint_of(x.value, seed)
                             if t:
                                 taint[x.targets[0].id] = taint.get(x.targets[0].id, set()) | t
-            fed = 'succ' in propagate(taint).get(pool, set())
+            taint = dict(taint)
+            taint.pop(kv, None)
+            final = propagate(taint)
+            pools = {pool} | {st.targets[0].id for st in walk_no_nested(f.node) if isinstance(st, ast.Assign)
+                              and len(st.targets) == 1 and isinstance(st.targets[0], ast.Name)
+                              and isinstance(st.value, ast.Name) and st.value.id == pool}
+            fed = any('succ' in final.get(p_, set()) for p_ in pools)
             if not fed:
                 ok, why = False, ('%s proposes a task on a path that does not put graph.successors(task) into the ready pool: '
                                   'its successors are never offered and the workflow never finishes' % q)
